@@ -425,6 +425,16 @@ def check_C08(ck):
             st = reg.stats()
             st.update(policy=pol, style=style, calls=meta["calls"])
             stats_all.append(st)
+            # the same presentation with the records in a random order (derived classes before bases)
+            r2 = random.Random(repr((ck.seed, i, style, "shuffled")))
+            r3 = random.Random(repr((ck.seed, i)))
+            lines, meta = gen.emit_script(r2, reg, pol, style=style, ids=ids, shuffle=True, callnext=True, call_rng=r3)
+            nm = "p%d-%s-%s-%s-shuffled" % (i, pol, reg.family, style)
+            scripts.append((nm, lines))
+            names.append(nm)
+            st = reg.stats()
+            st.update(policy=pol, style=style + "-shuffled", calls=meta["calls"])
+            stats_all.append(st)
         groups.append(names)
     impl_out, model_out, nbad = correspondence(ck, scripts, "C08: every presentation of the base lists agrees with the model")
     differing = 0
@@ -438,7 +448,7 @@ def check_C08(ck):
                                                              "presentation_a": dict(scripts)[names[0]], "presentation_b": dict(scripts)[names[j]]})
                 ck.violation(path, True)
     std_evidence(ck, ["C08"], scripts, scripts[:2], stats_all, impl_out,
-                 {"graphs": n, "presentations_per_graph": len(gen.STYLES), "groups_with_differing_observables": differing})
+                 {"graphs": n, "presentations_per_graph": 2 * len(gen.STYLES), "groups_with_differing_observables": differing})
 
 
 def c17_expectations(scripts, impl_out):
@@ -859,7 +869,7 @@ def check_C15(ck):
         n_c = len(reg.parents)
         ids = gen.make_ids(rng, n_c + 1, pol)
         ghost = ids[n_c][0]          # an id that is never registered
-        kind = rng.choice(["base", "method", "def", "call", "call", "vnew", "exact", "final"])
+        kind = rng.choice(["base", "method", "def", "call", "call", "vnew", "exact", "final", "history", "history"])
         body = registry_lines(rng, reg, pol, ids[:n_c])
         lines = ["policy " + pol]
         exp = []   # (marker, expected line)
@@ -883,6 +893,25 @@ def check_C15(ck):
             body[j] = " ".join(t)
             lines += body + ["echo U", "update"]
             exp.append(("U", "update raised unknown_class %d" % ghost))
+        elif kind == "history":
+            # a class registered for one update and gone at the next: unknown with respect to the current
+            # tables on every route, including virtual_ptr construction from an object of exactly that class
+            if ghost == 0:
+                continue
+            m = rng.choice(reg.methods)
+            par = rng.choice(desc[m["vp"][0]])
+            if rng.random() < 0.6:
+                lines.append("static %d" % ghost)
+            lines += body + ["class 900 %d 0 %d %d" % (ghost, ghost, ids[par][0]), "update"]
+            args = [ids[rng.choice(desc[v])][0] for v in m["vp"]]
+            args[0] = ghost
+            lines += ["echo A", "vnew v %d" % ghost]
+            exp.append(("A", "vptr ok"))
+            lines += ["unclass 900", "update"]
+            lines += ["echo H", "vnew w %d" % ghost]
+            exp.append(("H", "raised unknown_class %d" % ghost))
+            lines += ["echo I", "call %d %s" % (m["key"], " ".join(map(str, args)))]
+            exp.append(("I", "raised unknown_class %d" % ghost))
         else:
             m = rng.choice(reg.methods)
             static = None
@@ -1316,10 +1345,23 @@ def check_C14(ck):
                     t = [r2.choice(desc[v]) for v in m["vp"]]
                     if all((p, ids[c][0]) in compiled_classes for c in t):
                         out.append("call %d %s" % (m["key"], " ".join(str(ids[c][0]) for c in t)))
+                # virtual_ptr arguments of the static class: built from the class's own static cell
+                kinds = [ch for ch in m["shape"] if ch != "N"]
+                if sc is not None and "P" in kinds and all(sc in desc[v] for v, kd in zip(m["vp"], kinds) if kd == "P"):
+                    t = [sc if kd == "P" else r2.choice(desc[v]) for v, kd in zip(m["vp"], kinds)]
+                    if all((p, ids[c][0]) in compiled_classes for c in t):
+                        a_ = " ".join(str(ids[c][0]) for c in t)
+                        out.append("call %d %s" % (m["key"], a_))
+                        out.append("callfinal %d %s" % (m["key"], a_))
             out.append("echo E%d" % k)
             k += 1
             return out
         pending = []
+        # the class whose static v-table pointer cell is Policy::static_vptr<Obj>, the same class in every policy
+        sc = rng.choice(range(n_c)) if rng.random() < 0.75 else None
+        if sc is not None and ids[sc][0] == 0:
+            sc = None       # "static 0" means no static class in the harness and in the model
+        static_set = set()
         while any(todo.values()):
             p = rng.choice([q for q in pols if todo[q]])
             others = [q for q in pols if q != p and q in updated]
@@ -1328,6 +1370,9 @@ def check_C14(ck):
                 lines += observe(watch, "W")
                 pending.append((watch, k - 1))
             lines.append("policy " + p)
+            if sc is not None and p not in static_set:
+                lines.append("static %d" % ids[sc][0])
+                static_set.add(p)
             for _ in range(rng.randint(1, 4)):
                 if todo[p]:
                     l_ = todo[p].pop(0)
